@@ -227,6 +227,95 @@ def assume_cfg(fn, assumptions):
     return _propagate_const_flags(fn, g)
 
 
+def fn_view(fn, g):
+    """a copy of fn in which only the blocks reachable in the pruned graph g exist (the others are marked dead), so
+    that value resolution only sees the definitions that can execute under the assumption that produced g"""
+    from mirlib import Fn
+    live = reach(g, [0])
+    d = dict(fn.d)
+    blocks = []
+    for i, b in enumerate(fn.blocks):
+        if i in live or b["cleanup"]:
+            nb = b
+            if i in live and b["term"]["k"] == "switch":
+                keep = set(g.get(i, []))
+                t = b["term"]
+                tg = [[v, s_] for v, s_ in t["targets"] if s_ in keep]
+                ow = t["otherwise"] if t["otherwise"] in keep else (tg[0][1] if tg else t["otherwise"])
+                nb = dict(b)
+                nb["term"] = dict(t, targets=tg, otherwise=ow)
+            blocks.append(nb)
+        else:
+            nb = dict(b)
+            nb["cleanup"] = True
+            blocks.append(nb)
+    d["blocks"] = blocks
+    v = Fn(d, fn.crate)
+    v.program = getattr(fn, "program", None)
+    return v
+
+
+def assume_result_of_call(fn, call_block, is_ok):
+    """pruned CFG under the assumption that the Result returned by the call in call_block is Ok (or Err): switches on
+    its discriminant, a following `?`, and is_ok() / is_err() tests keep only the matching edge"""
+    t = fn.blocks[call_block]["term"]
+    if t["k"] != "call" or t["dest"]["proj"]:
+        return fn.cfg()
+    locs, _ = flows(fn, t["dest"]["local"])
+    removed = set()
+    for sb in fn.cfg():
+        tt = fn.blocks[sb]["term"]
+        if tt["k"] == "switch":
+            p = op_place(tt["discr"])
+            ds = fn.whole_defs(p["local"]) if p is not None and not p["proj"] else []
+            if len(ds) == 1 and ds[0][0] == "stmt" and ds[0][1]["k"] == "discr" and not ds[0][1]["place"]["proj"] and ds[0][1]["place"]["local"] in locs:
+                ty = fn.local_ty(ds[0][1]["place"]["local"])
+                e = switch_edges(fn, sb)
+                if "ControlFlow<" in ty or "Result<" in ty:
+                    ok_s, err_s = e.get("0", e["otherwise"]), e.get("1", e["otherwise"])
+                    if ok_s != err_s:
+                        removed.add((sb, err_s if is_ok else ok_s))
+        elif tt["k"] == "call" and callee_of(tt).rsplit("::", 1)[-1] in ("is_ok", "is_err") and tt["args"]:
+            a = op_place(tt["args"][0])
+            if a is not None and a["local"] in locs:
+                for sw, tr, fa in bool_switches(fn, sb):
+                    truth = is_ok if callee_of(tt).endswith("is_ok") else (not is_ok)
+                    removed.add((sw, fa if truth else tr))
+    return _propagate_const_flags(fn, cfg_without_edges(fn, removed))
+
+
+def assume_record_name(fn, name, variants, R=None):
+    """pruned CFG under the assumption that the prototype entry's name is RecordName::<name>: switches on the
+    discriminant of a `.name` place keep only that variant's edge, `x.name == RecordName::V` comparisons keep the edge
+    for (V == name)"""
+    from names import enum_const
+    R = R or Resolver(fn)
+    removed = set()
+    idx = str(variants.index(name)) if name in variants else None
+    for bi in fn.cfg():
+        t = fn.blocks[bi]["term"]
+        if t["k"] != "switch":
+            continue
+        dl = op_place(t["discr"])
+        d = strip(R.place(dl)) if dl else None
+        if d and d[0] == "discr":
+            x = strip(d[1])
+            if x[0] == "field" and x[2] == "name":
+                e = switch_edges(fn, bi)
+                keep = e.get(idx, e["otherwise"]) if idx is not None else e["otherwise"]
+                removed |= {(bi, s_) for s_ in e.values() if s_ != keep}
+    for bi, t in fn.calls(lambda c, t: ("RecordName as std::cmp::PartialEq>::eq" in c or "RecordName as std::cmp::PartialEq>::ne" in c)):
+        v = enum_const(R.operand(t["args"][1])) or enum_const(R.operand(t["args"][0]))
+        if v is None:
+            continue
+        for sw, tr, fa in bool_switches(fn, bi):
+            is_eq = callee_of(t).endswith("::eq")
+            holds = (v == name) if is_eq else (v != name)
+            removed.add((sw, fa if holds else tr))
+    g = cfg_without_edges(fn, removed)
+    return _propagate_const_flags(fn, g)
+
+
 def _propagate_const_flags(fn, g):
     """switches on a local that is only ever assigned constants (e.g. the result of `matches!`):
     keep only the edges for constants whose assignment is still reachable in the pruned graph."""
